@@ -11,6 +11,7 @@ import (
 	"github.com/internetarchive/Zeno/internal/pkg/config"
 	"github.com/internetarchive/Zeno/internal/pkg/log"
 	"github.com/internetarchive/Zeno/internal/pkg/reactor"
+	"github.com/internetarchive/Zeno/internal/pkg/verifhook"
 	"github.com/internetarchive/Zeno/pkg/models"
 	"github.com/internetarchive/gocrawlhq"
 )
@@ -83,7 +84,9 @@ func consumerFetcher(ctx context.Context, wg *sync.WaitGroup, urlBuffer chan<- *
 		}
 
 		// Fetch URLs from HQ
+		verifhook.At("hq.fetch.get")
 		URLs, err := getURLs(batchSize)
+		verifhook.At("hq.fetch.got", URLs, err)
 		if err != nil {
 			if err.Error() == "gocrawlhq: feed is empty" {
 				logger.Debug("feed is empty, waiting for new URLs")
@@ -147,6 +150,7 @@ func consumerSender(ctx context.Context, wg *sync.WaitGroup, urlBuffer <-chan *g
 			logger.Debug("closed")
 			return
 		case URL := <-urlBuffer:
+			verifhook.At("hq.sender.recv", URL)
 			// Debug check to troubleshoot a problem where the same seed is received twice by the reactor
 			if previousURLReceived != nil && previousURLReceived.ID == URL.ID {
 				spew.Dump(previousURLReceived)
@@ -172,6 +176,7 @@ func consumerSender(ctx context.Context, wg *sync.WaitGroup, urlBuffer <-chan *g
 
 			if discard {
 				logger.Debug("parsing failed, sending the item to finisher", "url", URL.Value)
+				verifhook.At("hq.sender.discard", newItem)
 				globalHQ.finishCh <- newItem
 				break
 			}
@@ -180,6 +185,7 @@ func consumerSender(ctx context.Context, wg *sync.WaitGroup, urlBuffer <-chan *g
 
 			// Send the new Item to the reactor
 			err = reactor.ReceiveInsert(newItem)
+			verifhook.Obs("hq.sender.inserted", newItem, err)
 			if err != nil {
 				if err == reactor.ErrReactorFrozen {
 					select {
